@@ -238,6 +238,42 @@ func (s *Script) react(i int, rctx sdk.Context) []Tx {
 			}
 		}
 	}
+	// the chain's other attestation queues (validator balances, reference block): sign, then report
+	for _, sub := range []string{"validators-balances", "reference-block"} {
+		oq := "evm/" + Ref + "/" + sub
+		for _, m := range w.Queue(rctx, oq) {
+			signed := map[string]bool{}
+			for _, sd := range m.GetSignData() {
+				signed[sdk.ValAddress(sd.ValAddress).String()] = true
+			}
+			evidenced := map[string]bool{}
+			for _, ev := range m.GetEvidence() {
+				evidenced[sdk.ValAddress(ev.ValAddress).String()] = true
+			}
+			cm, err := m.ConsensusMsg(w.App.AppCodec())
+			if err != nil {
+				continue
+			}
+			for _, v := range w.Vals {
+				va := v.ValAddr.String()
+				switch {
+				case !signed[va]:
+					add(v.Actor, w.SignQueued(v, oq, m))
+				case !evidenced[va]:
+					switch req := cm.(type) {
+					case *evmtypes.ValidatorBalancesAttestation:
+						res := &evmtypes.ValidatorBalancesAttestationRes{BlockHeight: 1000}
+						for range req.HexAddresses {
+							res.Balances = append(res.Balances, "1000000000000000000")
+						}
+						add(v.Actor, world.Evidence(v, oq, m.GetId(), res))
+					case *evmtypes.ReferenceBlockAttestation:
+						add(v.Actor, world.Evidence(v, oq, m.GetId(), &evmtypes.ReferenceBlockAttestationRes{BlockHeight: 12345, BlockHash: "0x00000000000000000000000000000000000000000000000000000000000abcde"}))
+					}
+				}
+			}
+		}
+	}
 	// skyway batches
 	batches, _ := w.App.SkywayKeeper.GetOutgoingTxBatches(rctx)
 	for _, b := range batches {
